@@ -101,19 +101,25 @@ CHECKS["C04"] = dict(engine="infer", category="proof", design_ref="DESIGN.md §5
          "error text), F-C04b (recursive Drop of Final) are printed as KNOWN-FINDING for their generator families only.",
     technique="Coq proof about a reference inference algorithm + correspondence with the Rust union-find")
 CHECKS["C08"] = dict(engine="redeem", category="proof", design_ref="DESIGN.md §5 C08, §11.3",
-    text="Coq model of one pruning pass (prune_case/Hide over the tracker's IHR classes) and of the fixed-point loop: every pass "
-         "keeps all commitment roots (any hash), a successful run gives the same output and events after pruning (any jets), at "
-         "a fixed point every reachable IHR class was executed and every remaining case class took both sides, pruning again is "
-         "a no-op, witness shrinking never reaches the expect; one-pass pruning refuted (twins, shared re-typing). Principality "
-         "of the re-inferred types is compared, not proved. libsimplicity with all anti-DoS flags is the oracle of the direct test.",
+    text="Coq model of one pruning pass (prune_case/Hide over the tracker's IHR classes) and of RedeemNode::prune as the"
+         " loop of passes with its stop test: every pass keeps all commitment roots (any hash), a successful run gives t"
+         "he same output and events after pruning (any jets), at a fixed point every reachable IHR class was executed an"
+         "d every remaining case class took both sides, pruning again is a no-op, witness shrinking never reaches the ex"
+         "pect; re-typing is proved with C04's reference inference (the re-inferred arrows exist, are the least typing o"
+         "f the retained structure and lie below the originals; evaluation commutes with Value::prune) and composed with"
+         " C05: the Bit Machine model returns the same output on the pruned, re-typed program. One-pass pruning is refut"
+         "ed (twins, shared re-typing). The loop is also executed in Coq with SHA-256 IHR classes (sampled) and compared"
+         " round by round. libsimplicity with all anti-DoS flags is the oracle of the direct test.",
     note="Trusted: Coq kernel, hand-written model, harness replaying the prune loop for per-round IHR classes, C evaluator as oracle.",
     technique="Coq proof of the structural pruning model + correspondence + C anti-DoS acceptance test")
 CHECKS["C12"] = dict(engine="redeem", category="proof", design_ref="DESIGN.md §5 C12, §11.3",
     text="Coq model of the three witness routes over typed node tables (construction-time witness + finalize_unpruned / "
-         "finalize_pruned, named witness map, decoding): every route returns only witnesses of exactly their node's target type "
-         "or an error, never panics, returns typed witnesses unchanged, their serialisation decodes back exactly and the machine "
-         "writes exactly width(target) bits; the pre-fix unchecked route is refuted. Five routes compared on right/wide/narrow/"
-         "same-width/unit/missing candidates on executed and unexecuted branches.",
+         "finalize_pruned, named witness map, decoding): every route returns only witnesses of exactly their node's targ"
+         "et type or an error, never panics, returns typed witnesses unchanged; through the Codec family the program bit"
+         "s and witness bytes of a canonical typed program both decode back (also for the real Elements jet tables), and"
+         " through C05 a typed table makes the Bit Machine model neither panic nor leave its static bounds, writing exac"
+         "tly width(target) bits per witness; the pre-fix unchecked route is refuted. Five routes compared on right/wide"
+         "/narrow/same-width/unit/missing candidates on executed, unexecuted and shared branches.",
     note="Trusted: Coq kernel, Ty/Ty.v, harness; the human-readable parser and SimpleFinalizer are not modelled (the latter is "
          "outside the claim).",
     technique="Coq proof over the typed-value specification + correspondence over all routes")
